@@ -16,6 +16,7 @@ def register(reg):
     register_tree(reg)
     register_formats(reg)
     register_stubs(reg)
+    register_hash(reg)
 
     @reg.specfun("as_bytes")
     def as_bytes(ex, st, args, cx):
@@ -289,3 +290,20 @@ def register_stubs(reg):
     def class_module_of(ex, st, args, cx):
         w, V = ex.w, ex.w.V
         return ex.o.str_(w.fun("class_module", w.Cls, "str")(V.c(args[0].e)))
+
+
+def register_hash(reg):
+    @reg.specfun("hash_of")
+    def hash_of(ex, st, args, cx):
+        from pyvc.builtins_spec import hash_funs
+        H, dsz = hash_funs(ex.w)
+        d = H(args[0].e, ex.o.y(args[1]))
+        st.assume(z3.Length(d) == dsz(args[0].e))
+        return ex.o.bytes_(d)
+
+    @reg.specfun("digest_size")
+    def digest_size(ex, st, args, cx):
+        from pyvc.builtins_spec import hash_funs
+        H, dsz = hash_funs(ex.w)
+        st.assume(dsz(args[0].e) > 0)
+        return ex.o.int_(dsz(args[0].e))
